@@ -74,6 +74,51 @@ func Features(s *ast.Schema, doc *ast.QueryDocument, op *ast.OperationDefinition
 		}
 		names := map[string][]string{} // field name -> response keys
 		keys := map[string]string{}    // response key -> field name
+		// response keys of composite fields that are (also) selected inside a fragment of this selection set
+		{
+			direct := map[string]bool{}
+			for _, sel := range ss {
+				if x, ok := sel.(*ast.Field); ok && len(x.SelectionSet) > 0 {
+					direct[respKey(x)] = true
+				}
+			}
+			seenIn := map[string]int{}
+			var inFrag func(ss ast.SelectionSet, container int)
+			n := 0
+			inFrag = func(fss ast.SelectionSet, container int) {
+				for _, sel := range fss {
+					switch x := sel.(type) {
+					case *ast.Field:
+						if len(x.SelectionSet) == 0 {
+							continue
+						}
+						k := respKey(x)
+						if direct[k] || (seenIn[k] != 0 && seenIn[k] != container) {
+							fs["same-response-key-across-fragment"] = true
+						}
+						seenIn[k] = container
+					case *ast.InlineFragment:
+						inFrag(x.SelectionSet, container)
+					case *ast.FragmentSpread:
+						if x.Definition != nil {
+							inFrag(x.Definition.SelectionSet, container)
+						}
+					}
+				}
+			}
+			for _, sel := range ss {
+				switch x := sel.(type) {
+				case *ast.InlineFragment:
+					n++
+					inFrag(x.SelectionSet, n)
+				case *ast.FragmentSpread:
+					if x.Definition != nil {
+						n++
+						inFrag(x.Definition.SelectionSet, n)
+					}
+				}
+			}
+		}
 		for _, sel := range ss {
 			switch x := sel.(type) {
 			case *ast.Field:
@@ -87,6 +132,10 @@ func Features(s *ast.Schema, doc *ast.QueryDocument, op *ast.OperationDefinition
 						// an earlier sibling selects the field called like this response key under another alias
 						fs["key-equals-earlier-aliased-field-name"] = true
 					}
+				}
+				if _, twice := keys[key]; twice {
+					// two sibling selections answer under one response key: their sub-selections merge
+					fs["same-response-key-twice"] = true
 				}
 				names[x.Name] = append(names[x.Name], key)
 				keys[key] = x.Name
@@ -442,4 +491,11 @@ func onlyHelpers(ss ast.SelectionSet) bool {
 		}
 	}
 	return true
+}
+
+func respKey(f *ast.Field) string {
+	if f.Alias != "" {
+		return f.Alias
+	}
+	return f.Name
 }
